@@ -118,5 +118,13 @@ def strip_g(s):
     return strip_generics(s)
 
 
-RULES = [r1, r2, r3]
-FLOORS = {'C32-R1': 60, 'C32-R2': 3, 'C32-R3': 1}
+def r4(ctx):
+    ctx.rule('C32-R4', 'wire formats: NtpDuration::from_bits_short / from_bits_time32 read an unsigned u32 and shift left by the amount to_bits_short / '
+             'to_bits_time32 shift right (16 / 4), so every encodable non-negative duration decodes to within one unit and no wire value decodes to a '
+             'negative duration (which the encoders would refuse with a panic); NtpTimestamp::{from_bits,to_bits} are the 64 bits as they are')
+    from rules import C24
+    C24.wire_codecs(ctx)
+
+
+RULES = [r1, r2, r3, r4]
+FLOORS = {'C32-R1': 60, 'C32-R2': 3, 'C32-R3': 1, 'C32-R4': 5}
